@@ -104,6 +104,10 @@ class ExpressionEvaluator:
         }
         if allowed_funcs:
             env.update(allowed_funcs)
+        # Without this entry ``eval`` installs the interpreter's builtins into the
+        # globals it is given: a declared variable that is not supplied at call time
+        # (``open``, ``__import__``) would silently resolve to the builtin of that name.
+        env["__builtins__"] = {}  # type: ignore[assignment]
         self.env = env
 
     def compile(self, expr: str, allowed_names: set[str]) -> Callable[..., Any]:
